@@ -210,3 +210,22 @@ pub proof fn lemma_filter_map_post<T, B, V>(v: Seq<T>, g: spec_fn(T) -> Option<V
     assert forall|j: int| 0 <= j < v.len() implies opt_map(#[trigger] o[j], vb) == g(v[j]) by { assert(*s[j] == v[j]); }
     lemma_somes_filter_map(v, o, g, vb);
 }
+
+// ---- `str::split(char)` / `str::trim` (string contents are opaque to Verus: results are uninterpreted functions
+// of the text; the real string code is Kani-bounded) ---------------------------------------------------------
+pub uninterp spec fn split_v(s: Seq<char>, c: char) -> Seq<Seq<char>>;
+pub uninterp spec fn trim_v(s: Seq<char>) -> Seq<char>;
+pub assume_specification<'a>[ str::trim ](s: &'a str) -> (r: &'a str)
+    ensures r@ == trim_v(s@);
+pub trait VpStrExt {
+    /// `str::split(c)` for a char pattern, as an iterator over the pieces in order
+    fn vp_split<'a>(&'a self, c: char) -> (r: std::vec::IntoIter<&'a str>);
+}
+impl VpStrExt for str {
+    #[verifier::external_body]
+    fn vp_split<'a>(&'a self, c: char) -> (r: std::vec::IntoIter<&'a str>)
+        ensures r.obeys_prophetic_iter_laws(), r.decrease() is Some,
+            r.remaining().len() == split_v(self@, c).len(),
+            forall|i: int| 0 <= i < r.remaining().len() ==> (#[trigger] r.remaining()[i])@ == split_v(self@, c)[i],
+    { self.split(c).collect::<Vec<&'a str>>().into_iter() }
+}
